@@ -24,21 +24,34 @@ Record cand := mkCand {
   c_rebound : bool         (* after its first exchange its NAT mapping was lost; it walked again (from a new
                               external address) before the requester turned up *)
 }.
+(* where the introducer B lives *)
+Inductive bplace :=
+| BPublic                  (* a public host everybody walks to directly (the base space) *)
+| BOwn (t : nat_type)      (* at a site of its own of type t; known to the others only through the rendezvous
+                              tracker R, reachable because it punctured towards them when R asked it to *)
+| BWithA                   (* at the requester's site *)
+| BWithC (j : nat).        (* at candidate j's site *)
+
 Record cfg := mkCfg {
   g_tA : nat_type;         (* NAT type of the requester's site *)
   g_cands : list cand;
   g_styleA : bool;         (* style of the requester's introduction request to B *)
   g_warm : bool;           (* the requester has talked to the tracker before (knows its WAN address, may have
                               been introduced to somebody by the tracker) *)
-  g_sels : list Z          (* random.choice oracle per host id (T, B, A, C_0, ...); missing = 0 *)
+  g_sels : list Z;         (* random.choice oracle per host id (T, B, A, C_0, ...); missing = 0 *)
+  g_bplace : bplace
 }.
 
 Definition SITE_PUB : Z := 0.
 Definition SITE_A : Z := 1.
 Definition cand_site (j : nat) (c : cand) : Z := if c_same c then SITE_A else 10 + Z.of_nat j.
 
+Definition SITE_B : Z := 2.
+Definition ID_R : Z := 8.                      (* rendezvous tracker (public), only when B is not BPublic *)
+
 Definition ADDR_T : addr := (ip4 1 0 0 1, 8000).
 Definition ADDR_B : addr := (ip4 1 0 0 2, 8001).
+Definition ADDR_R : addr := (ip4 1 0 0 3, 8008).
 Definition lan_of (open : bool) (pub_ip : Z) (id : Z) : addr :=
   if open then (pub_ip, 8000 + id) else (ip4 192 168 1 (10 + id), 8000 + id).
 Definition ADDR_A (g : cfg) : addr := lan_of (is_open (g_tA g)) (ip4 2 0 0 2) ID_A.
@@ -47,20 +60,50 @@ Definition cand_lan (g : cfg) (j : nat) (c : cand) : addr :=
   else if c_alias c && negb (is_open (c_type c)) && negb (is_open (g_tA g)) then ADDR_A g
   else lan_of (is_open (c_type c)) (ip4 2 0 0 (cand_id j)) (cand_id j).
 
+Definition via_rendezvous (g : cfg) : bool := match g_bplace g with BPublic => false | _ => true end.
+Definition b_site (g : cfg) : Z :=
+  match g_bplace g with
+  | BPublic => SITE_PUB
+  | BOwn _ => SITE_B
+  | BWithA => SITE_A
+  | BWithC j => match nth_error (g_cands g) j with Some c => cand_site j c | None => SITE_B end
+  end.
+(* (is the site open, the machine's public ip if it is) *)
+Definition b_site_kind (g : cfg) : bool * Z :=
+  match g_bplace g with
+  | BPublic => (true, ip4 1 0 0 2)
+  | BOwn t => (is_open t, ip4 2 0 0 1)
+  | BWithA => (is_open (g_tA g), ip4 2 0 0 2)
+  | BWithC j => match nth_error (g_cands g) j with
+                | Some c => if c_same c then (is_open (g_tA g), ip4 2 0 0 2)
+                            else (is_open (c_type c), ip4 2 0 0 (cand_id j))
+                | None => (true, ip4 2 0 0 1)
+                end
+  end.
+Definition ADDR_Bg (g : cfg) : addr :=
+  match g_bplace g with
+  | BPublic => ADDR_B
+  | _ => lan_of (fst (b_site_kind g)) (snd (b_site_kind g)) ID_B
+  end.
+
 Fixpoint indexed {A} (i : nat) (l : list A) : list (nat * A) :=
   match l with [] => [] | x :: tl => (i, x) :: indexed (S i) tl end.
 
 Definition mk_site (id : Z) (t : nat_type) : site := mkSite id t (ip4 5 0 0 id) [] (20000 + 100 * id) [].
 
 Definition mk_net (g : cfg) : net :=
-  mkNet ([mkHost ID_T ADDR_T SITE_PUB; mkHost ID_B ADDR_B SITE_PUB; mkHost ID_A (ADDR_A g) SITE_A]
+  mkNet ([mkHost ID_T ADDR_T SITE_PUB; mkHost ID_B (ADDR_Bg g) (b_site g); mkHost ID_A (ADDR_A g) SITE_A]
            ++ map (fun jc => mkHost (cand_id (fst jc)) (cand_lan g (fst jc) (snd jc)) (cand_site (fst jc) (snd jc)))
-                  (indexed 0 (g_cands g)))
+                  (indexed 0 (g_cands g))
+           ++ (if via_rendezvous g then [mkHost ID_R ADDR_R SITE_PUB] else []))
         ([mk_site SITE_PUB Open; mk_site SITE_A (g_tA g)]
+           ++ (match g_bplace g with BOwn t => [mk_site SITE_B t] | _ => [] end)
            ++ concat (map (fun jc => if c_same (snd jc) then []
                                      else [mk_site (cand_site (fst jc) (snd jc)) (c_type (snd jc))])
                           (indexed 0 (g_cands g)))).
 
+Definition host_site_raw (g : cfg) (id : Z) : Z :=
+  match find (fun h => h_id h =? id) (hosts (mk_net g)) with Some h => h_site h | None => -1 end.
 Definition sel_of (g : cfg) (id : Z) : Z := nth (Z.to_nat id) (g_sels g) 0.
 Definition mk_node (g : cfg) (h : host) : node :=
   mkNode (h_id h) (h_lan h) (h_lan h) 0 (sel_of g (h_id h)) [] [].
@@ -79,8 +122,22 @@ Definition main_ops (g : cfg) : list op :=
   [OpWalk ID_A ADDR_B (Some (g_styleA g)); OpPump; OpWalkAll ID_A; OpPump].
 Definition warm_ops (g : cfg) : list op :=
   if g_warm g then [OpWalk ID_A ADDR_T (Some false); OpPump] else [].
+(* B not public: B registers at the rendezvous tracker R (style g_styleA, which R passes on, so that is the
+   style of the requests B later receives); a by-request candidate asks R, is introduced to B (B punctures
+   towards it) and walks to what R handed out; a by-response candidate is introduced to B by T as before;
+   the requester asks R, walks to what R handed out (B answers: the response under test), then walks to what
+   B handed out *)
+Definition setup_ops_x (jc : nat * cand) : list op :=
+  let id := cand_id (fst jc) in
+  if c_resp (snd jc) then
+    [OpWalk id ADDR_T (Some (c_new (snd jc))); OpPump; OpWalk ID_B ADDR_T None; OpPump; OpWalkAll ID_B; OpPump]
+  else [OpWalk id ADDR_R (Some (c_new (snd jc))); OpPump; OpWalkAll id; OpPump].
 Definition scenario_ops (g : cfg) : list op :=
-  concat (map setup_ops (indexed 0 (g_cands g))) ++ warm_ops g ++ main_ops g.
+  if via_rendezvous g then
+    [OpWalk ID_B ADDR_R (Some (g_styleA g)); OpPump]
+      ++ concat (map setup_ops_x (indexed 0 (g_cands g)))
+      ++ [OpWalk ID_A ADDR_R (Some false); OpPump; OpWalkAll ID_A; OpPump; OpWalkAll ID_A; OpPump]
+  else concat (map setup_ops (indexed 0 (g_cands g))) ++ warm_ops g ++ main_ops g.
 
 Definition run_scenario (g : cfg) : world := run_ops (mk_world g) (scenario_ops g).
 Definition run_scn (g : cfg) : obs := observe (run_scenario g).
@@ -114,7 +171,7 @@ Record verdict := mkVerdict {
   v_puncture_req : bool;     (* ... and in the same step B sent a puncture-request, delivered to the introduced
                                 peer X, naming the requester's address pair and the request's identifier *)
   v_puncture : bool;         (* X punctured towards the requester (its LAN address when they share a site,
-                                else the address B saw it under) *)
+                                else its external address, which it has learned as my_estimated_wan) *)
   v_request : bool;          (* a later introduction request of the requester reached X, sent to one of the
                                 two addresses B handed out *)
   v_response : bool;         (* X's response reached the requester *)
@@ -139,7 +196,9 @@ Definition verdict_of (g : cfg) (o : obs) : verdict :=
                 let x_lan := host_lan g x in
                 let preq := (s =? ID_B) && negb (x =? ID_A) && addr_eqb wanw dest && addr_eqb lanw a_lan
                             && (pid =? ident) in
-                let toward := if same then a_lan else dest in
+                let a_wan := match find (fun p => fst p =? ID_A) (o_wans o) with
+                             | Some p => snd p | None => zero_addr end in
+                let toward := if same then a_lan else a_wan in
                 let punct := existsb (fun e => match e with
                                                | Ev s' d (Punct _ _ _ _ pid') _ =>
                                                    (s' =? x) && addr_eqb d toward && (pid' =? ident)
@@ -228,7 +287,25 @@ Definition selB_for (cs : list cand) (pos : nat) : Z :=
 
 Definition cfg_for (tA : nat_type) (c : cand) (styleA warm : bool) (k pos : nat) : cfg :=
   let cs := cands_for k pos c in
-  mkCfg tA cs styleA warm [-1; selB_for cs pos].
+  mkCfg tA cs styleA warm [-1; selB_for cs pos] BPublic.
+
+(* the enlarged space: the introducer placed by `bp` (BWithC refers to the introduced candidate) *)
+Definition cfg_forx (bp : bplace) (tA : nat_type) (c : cand) (styleA : bool) (k pos : nat) : cfg :=
+  let cs := cands_for k pos c in
+  mkCfg tA cs styleA false [-1; selB_for cs pos] bp.
+
+Definition bplaces (pos : nat) : list bplace :=
+  [BOwn Open; BOwn FullCone; BOwn AddrRestricted; BOwn PortRestricted; BWithA; BWithC pos].
+
+(* where the property cannot hold: the introducer shares a NAT box with exactly one of requester and
+   introduced peer, so it has seen that party only under its LAN address and cannot name (resp. hand out) its
+   external address to the other *)
+Definition b_blind (g : cfg) (x : Z) : bool :=
+  let sb := b_site g in
+  let sa := SITE_A in
+  let sx := host_site_raw g x in
+  negb (fst (b_site_kind g))
+  && (((sb =? sx) && negb (sb =? sa)) || ((sb =? sa) && negb (sx =? sa))).
 
 Definition flat_map' {A B} (l : list A) (f : A -> list B) : list B := flat_map f l.
 
